@@ -298,7 +298,13 @@ def eval_near(desc):
 
 def eval_clip(desc):
     """the jitted ladim.tracker.clip on positions exactly at, just inside and just outside the limits"""
-    from ladim.tracker import clip
+    from ladim import tracker as _tr
+
+    clip = getattr(_tr, "clip", None)
+    if clip is None:
+        # the helper is an internal of the tracker: an implementation that clips inside another kernel has no
+        # such function; the clipped stage positions are then observed through the reads of the simulations only
+        return {"ints": None, "oracle": None, "nontrivial": None, "kind": "clip-helper-absent", "observed": None}
 
     rng = np.random.default_rng(desc["seed"])
     if rng.random() < 0.6:      # the tracker's own limits of some sub-rectangle
@@ -427,7 +433,7 @@ def eval_sim(desc, ctx):
     conf, info = write_scenario(d, desc)
     calls = []          # (kind, shape, x, y, k, triples, ok)
     clips = []          # (limits, before, after)
-    tri0, z2s0, clip0 = ROMS.trilinear, ROMS.z2s_kernel, tracker.clip
+    tri0, z2s0, clip0 = ROMS.trilinear, ROMS.z2s_kernel, getattr(tracker, "clip", None)
 
     def rec_clip(X, Y, xmin, xmax, ymin, ymax):
         bx, by = [float(v) for v in X], [float(v) for v in Y]
@@ -465,7 +471,8 @@ def eval_sim(desc, ctx):
         return Kout, Aout
 
     crash = None
-    tracker.clip = rec_clip
+    if clip0 is not None:
+        tracker.clip = rec_clip
     try:
         with patched(trilinear=rec_tri, z2s_kernel=rec_z2s):
             try:
@@ -473,7 +480,8 @@ def eval_sim(desc, ctx):
             except BaseException as e:  # noqa: BLE001
                 crash = f"{type(e).__name__}: {e}"
     finally:
-        tracker.clip = clip0
+        if clip0 is not None:
+            tracker.clip = clip0
     for f in d.glob("*"):
         try:
             f.unlink()
